@@ -7,6 +7,7 @@ import (
 	"bufio"
 	"context"
 	"fmt"
+	"github.com/Allenxuxu/ringbuffer"
 	"io"
 	"sync"
 	"sync/atomic"
@@ -325,6 +326,78 @@ func (r *Run) c17GzipBodies() {
 	f.close()
 }
 
+// c17CodecPoolsAfterErrors: the codec's shared header pools after its error paths have been through them (an object
+// handed back twice only shows when two users get it at the same time): frames that fail to decode in every phase,
+// both versions, both entry points; then 8 goroutines pack and decode concurrently on their own contexts.
+func (r *Run) c17CodecPoolsAfterErrors() {
+	g := r.rng.Fork()
+	for v := 1; v <= 2; v++ {
+		for i := 0; i < 150; i++ {
+			f := &RefFrame{V: v, Type: 1 + i%3, Cmd: 9, Rid: uint32(i), Body: []byte("body"), MLenField: -1, BLenField: -1}
+			switch i % 4 {
+			case 0:
+				f.Type = 7 + i%8 // unknown packet type
+			case 1:
+				if v == 2 {
+					f.Meta = []byte{0x85, 0x01, 0x02} // truncated metadata block
+				} else {
+					f.Gzip = true // body is not a gzip stream
+				}
+			case 2:
+				f.Gzip = true
+			case 3:
+				f.Verify = true
+				f.Sig = []byte("0123456789abcdef")
+			}
+			fr := f.encode()
+			if i%4 == 3 {
+				fr = fr[:len(fr)-5] // trailer cut short
+			}
+			implUnpackBytes(v, newCtx(1, uint8(v)), fr)
+			rb := ringbuffer.New(256)
+			rb.Write(fr)
+			implUnpack(v, newCtx(1, uint8(v)), rb)
+		}
+	}
+	var wg sync.WaitGroup
+	var bad int32
+	for w := 0; w < 8; w++ {
+		wg.Add(1)
+		gg := g.Fork()
+		go func(w int) {
+			defer wg.Done()
+			defer func() {
+				if e := recover(); e != nil {
+					atomic.AddInt32(&bad, 1)
+				}
+			}()
+			for i := 0; i < 400; i++ {
+				v := 1 + i%2
+				p := gg.validPK(v, false)
+				if len(p.Body) > 2000 {
+					p.Body = p.Body[:2000]
+				}
+				ctx := newCtx(p.Codec, uint8(v))
+				out, frame := implPack(v, ctx, p.toPacket(), 0)
+				if frame == nil {
+					_ = out
+					continue
+				}
+				o, q := implUnpackBytes(v, newCtx(p.Codec, uint8(v)), frame)
+				if q == nil || samePK(v, p, pkOf(q), p.Body) != "" {
+					_ = o
+					atomic.AddInt32(&bad, 1)
+				}
+			}
+		}(w)
+	}
+	wg.Wait()
+	if n := atomic.LoadInt32(&bad); n > 0 {
+		r.violate(Violation{What: fmt.Sprintf("%d concurrent pack/decode round trips went wrong after failing decodes had been through the codec's pools", n), Case: "8 goroutines x 400 round trips, both versions"})
+	}
+	r.st.Evaluations++
+}
+
 func itoa(n int) string {
 	if n == 0 {
 		return "0"
@@ -352,6 +425,7 @@ func runC17(r *Run) {
 	r.c17SplitFrames()
 	r.c17WsOverflow()
 	r.c17GzipBodies()
+	r.c17CodecPoolsAfterErrors()
 	suites := map[string]func(*Run){"C05": runC05, "C14": runC14, "C15": runC15}
 	order := []string{"C05", "C14", "C15"}
 	if r.thorough() {
